@@ -7,12 +7,12 @@ Import ListNotations RecordSetNotations.
 
 Ltac open5 H1 H5 s :=
   pose proof (i_start_src s H1) as Hss; pose proof (i_start_idle s H1) as Hsi; pose proof (i_cstop s H1) as Hcs; pose proof (i_srun s H1) as Hsr;
-  destruct H5 as [C1 C2 C3 C4 C5 C6 C7]; unfold fail_pending, sink_told in *; destruct s; unfold begin_start, begin_stop, end_stop, fail_start, workers_idle in *; cbn in *.
+  destruct H5 as [C1 C2 C3 C4 C5 C6 C7 C8 C9]; unfold fail_pending, sink_told in *; destruct s; unfold begin_start, begin_stop, end_stop, fail_start, workers_idle in *; cbn in *.
 Ltac close5 := constructor; unfold fail_pending, sink_told; cbn; try assumption.
 Ltac t5 := solve [intuition (try discriminate; try congruence)].
 
 Lemma inv5_config s v n : Inv5 s -> Inv5 (s <| valid := v |> <| maxn := n |>).
-Proof. intros [C1 C2 C3 C4 C5 C6 C7]. destruct s; close5. Qed.
+Proof. intros [C1 C2 C3 C4 C5 C6 C7 C8 C9]. destruct s; close5. Qed.
 
 Lemma inv5_begin_start s : Inv1 s -> Inv5 s -> workers_idle s = true -> Inv5 (begin_start s).
 Proof.
@@ -22,17 +22,17 @@ Proof.
 Qed.
 
 Lemma inv5_reset_start s : Inv5 s -> (c_start s = TDone \/ c_start s = TNone) -> Inv5 (set c_start (fun _ => TNone) s).
-Proof. intros H5 Ht. destruct H5 as [C1 C2 C3 C4 C5 C6 C7]; unfold fail_pending, sink_told in *; destruct s; cbn in *. destruct Ht; subst; close5; t5. Qed.
+Proof. intros H5 Ht. destruct H5 as [C1 C2 C3 C4 C5 C6 C7 C8 C9]; unfold fail_pending, sink_told in *; destruct s; cbn in *. destruct Ht; subst; close5; t5. Qed.
 
 Lemma inv5_begin_stop ab s : Inv5 s -> c_start s <> TFailed -> Inv5 (begin_stop ab s).
 Proof.
-  intros H5 Ht. destruct H5 as [C1 C2 C3 C4 C5 C6 C7]; unfold fail_pending, sink_told in *; destruct s; unfold begin_stop; cbn in *.
+  intros H5 Ht. destruct H5 as [C1 C2 C3 C4 C5 C6 C7 C8 C9]; unfold fail_pending, sink_told in *; destruct s; unfold begin_stop; cbn in *.
   destruct valid; close5; t5.
 Qed.
 
 Lemma inv5_end_stop s : Inv5 s -> c_stop s <> CNone \/ c_start s <> TFailed -> (c_start s = TNone \/ c_start s = TDone \/ c_start s = TFailed) -> Inv5 (end_stop s).
 Proof.
-  intros H5 Hc Ht. destruct H5 as [C1 C2 C3 C4 C5 C6 C7]; unfold fail_pending, sink_told in *; destruct s; unfold end_stop; cbn in *.
+  intros H5 Hc Ht. destruct H5 as [C1 C2 C3 C4 C5 C6 C7 C8 C9]; unfold fail_pending, sink_told in *; destruct s; unfold end_stop; cbn in *.
   destruct Ht as [Ht|[Ht|Ht]]; subst; close5; t5.
 Qed.
 
@@ -56,7 +56,7 @@ Proof.
   - destruct (i && _ && _) eqn:Eo; [discriminate|].
     destruct i.
     + destruct (step_stream (st1 y) a e) as [s'|] eqn:Es; [|discriminate].
-      pose proof (sinv_step _ _ _ _ Hs1 Es) as Hs1'. destruct Hs1 as (I1 & _). pose proof (inv5_step _ _ _ _ I1 F1 Es) as F1'.
+      pose proof (sinv_step _ _ _ _ Hs1 Es) as Hs1'. destruct Hs1 as (I1 & I12 & I13 & _). pose proof (inv5_step _ _ _ _ I1 I12 I13 F1 Es) as F1'.
       destruct (is_start_failure e) eqn:Ef; inversion H; subst; clear H.
       * pose proof (in_start_of_failure _ _ _ _ _ Hc1 Es Ef) as Hin. rewrite Hin in *. cbn in Hc0, Hc1.
         destruct Hc0 as (A0 & B0 & C0). destruct Hc1 as (A1 & B1 & C1).
@@ -64,7 +64,7 @@ Proof.
         constructor; cbn; apply inv5_fail_start; assumption.
       * constructor; cbn; assumption.
     + destruct (step_stream (st0 y) a e) as [s'|] eqn:Es; [|discriminate].
-      pose proof (sinv_step _ _ _ _ Hs0 Es) as Hs0'. destruct Hs0 as (I0 & _). pose proof (inv5_step _ _ _ _ I0 F0 Es) as F0'.
+      pose proof (sinv_step _ _ _ _ Hs0 Es) as Hs0'. destruct Hs0 as (I0 & I02 & I03 & _). pose proof (inv5_step _ _ _ _ I0 I02 I03 F0 Es) as F0'.
       destruct (is_start_failure e) eqn:Ef; inversion H; subst; clear H.
       * pose proof (in_start_of_failure _ _ _ _ _ Hc0 Es Ef) as Hin. rewrite Hin in *. cbn in Hc0, Hc1.
         destruct Hc0 as (A0 & B0 & C0). destruct Hc1 as (A1 & B1 & C1).
